@@ -629,13 +629,30 @@ pub enum Decision {
 }
 
 pub fn invoke(sc: &mut Scene, l: &Layout) -> Result<Decision, String> {
+    invoke_with(sc, l, None)
+}
+
+/// `during`: a file-system operation performed while the script runs (before it writes its outputs). The record
+/// of a completed run describes the inputs the script was started on and the outputs it left.
+pub fn invoke_with(sc: &mut Scene, l: &Layout, during: Option<&Op>) -> Result<Decision, String> {
     let executed = std::sync::Arc::new(std::sync::atomic::AtomicBool::new(false));
     let ex2 = executed.clone();
     let root = sc.root.clone();
+    let rec = sc.rec.clone();
     let writes: Vec<PathBuf> = l.writes.iter().map(|w| root.join(w)).collect();
     let n = sc.executions + 1;
+    let during: Option<Op> = during.cloned();
+    // (input part only: an output command may not be runnable before the first build)
+    let no_output = Resources { files: vec![], cmds: vec![] };
+    let before = match &sc.ref_input {
+        Some(spec) => take_snap_spec(spec, spec.0.is_empty() && spec.1.is_empty(), &no_output),
+        None => take_snap(&sc.input, &no_output),
+    };
     let fut = async move {
         ex2.store(true, Ordering::SeqCst);
+        if let Some(op) = &during {
+            apply_op(&root, op, &rec);
+        }
         for w in &writes {
             write_clocked(w, format!("built #{}", n).as_bytes());
         }
@@ -658,7 +675,11 @@ pub fn invoke(sc: &mut Scene, l: &Layout) -> Result<Decision, String> {
         }
         Ok(IncrementalRunResult::Completed) => {
             sc.executions += 1;
-            sc.record = scene_snap(sc);
+            // inputs as the script found them, outputs as it left them
+            sc.record = match (before, scene_snap(sc)) {
+                (Some(b), Some(a)) => Some(Snap { input_files: b.input_files, input_cmds: b.input_cmds, output_files: a.output_files, output_cmds: a.output_cmds }),
+                _ => None,
+            };
             Ok(Decision::Executed)
         }
         Ok(IncrementalRunResult::Cancelled) => Err("runner reported Cancelled".into()),
@@ -808,6 +829,61 @@ pub fn run_histories_part(l: &Layout, ops: &[Op], len1: usize, len2: usize, orac
     out
 }
 
+/// run; drop the record; run with one operation performed *while the script runs*; run — the last invocation must
+/// follow the reference, whose record describes the inputs the second script was started on
+pub fn run_during_script(l: &Layout, ops: &[Op], oracle: Oracle, tag: &str) -> HistOut {
+    let mut out = HistOut { histories: 0, invocations: 0, skips: 0, skip_allowed_but_ran: 0, distinct: BTreeSet::new(), violations: vec![], sample: None };
+    for (k, op) in ops.iter().enumerate() {
+        if matches!(op, Op::Redeclare(_) | Op::DeleteRecord | Op::TruncateRecord) {
+            continue;
+        }
+        static SEQ: AtomicU64 = AtomicU64::new(0);
+        let root = scratch(&format!("{}-during-{}-{}-{}", tag, l.name, k, SEQ.fetch_add(1, Ordering::SeqCst)));
+        let mut sc = materialise(l, &root);
+        let mut log: Vec<String> = vec![];
+        let mut bad: Option<(String, String)> = None;
+        let d1 = invoke(&mut sc, l);
+        log.push(format!("run#1 -> {:?}", d1));
+        let rec = sc.rec.clone();
+        if apply_op(&root, &Op::DeleteRecord, &rec) {
+            sc.record = None;
+        }
+        log.push("op DeleteRecord".into());
+        let d2 = invoke_with(&mut sc, l, Some(op));
+        log.push(format!("run#2 with {:?} performed while the script runs -> {:?}", op, d2));
+        let now = scene_snap(&sc);
+        let allowed = skip_allowed(&sc.record, &now);
+        let same = untouched(&sc.record, &now);
+        let d3 = invoke(&mut sc, l);
+        out.invocations += 3;
+        log.push(format!("run#3 -> {:?} (reference: skip allowed={}, untouched={})", d3, allowed, same));
+        match (&d1, &d2, &d3) {
+            (Err(e), _, _) | (_, Err(e), _) | (_, _, Err(e)) => bad = Some((format!("runner-error:{}", e.split(':').next().unwrap_or("")), e.clone())),
+            (_, _, Ok(Decision::Skipped)) => {
+                out.skips += 1;
+                if !allowed {
+                    bad = Some(("skipped-although-something-declared-changed-while-the-script-ran".into(), "the runner skipped although a declared resource was changed while the previous script was running (the record must describe what that script was started on)".into()));
+                }
+            }
+            (_, _, Ok(Decision::Executed)) => {
+                if allowed {
+                    out.skip_allowed_but_ran += 1;
+                }
+                if same && oracle != Oracle::SkipOnlyWhenAllowed {
+                    bad = Some(("rebuilt-although-nothing-changed".into(), "the tree is as recorded, yet the script ran again".into()));
+                }
+            }
+        }
+        out.histories += 1;
+        out.distinct.insert(h64(&(l.name, "during", &log)));
+        if let Some((fp, why)) = bad {
+            out.violations.push((format!("{} [layout={} ops={}]", fp, l.name, format!("{:?}", op).split('(').next().unwrap_or("")), format!("{}\nlayout {}\n{}", why, l.name, log.join("\n")), json!({"engine": "seqcheck", "check": tag, "layout": l.name, "during_script": format!("{:?}", op), "log": log})));
+        }
+        let _ = std::fs::remove_dir_all(&root);
+    }
+    out
+}
+
 fn merge(rep: &mut Report, outs: Vec<HistOut>) {
     let mut distinct = BTreeSet::new();
     let (mut h, mut inv, mut skips, mut ran) = (0, 0, 0, 0);
@@ -866,7 +942,8 @@ pub fn check_c02(rep: &mut Report) {
             split.push((l.clone(), *a, *b, k, parts));
         }
     }
-    let outs = crate::explore::par_map(&split, 16, |(l, a, b, k, n)| run_histories_part(l, &ops_for(l), *a, *b, Oracle::SkipOnlyWhenAllowed, "C02", *k, *n));
+    let mut outs = crate::explore::par_map(&split, 16, |(l, a, b, k, n)| run_histories_part(l, &ops_for(l), *a, *b, Oracle::SkipOnlyWhenAllowed, "C02", *k, *n));
+    outs.extend(crate::explore::par_map(&ls, 16, |l| run_during_script(l, &ops_for(l), Oracle::SkipOnlyWhenAllowed, "C02")));
     merge(rep, outs);
     rep.set("exhaustive", json!(true));
     rep.set("bounds", json!({"layouts": ls.iter().map(|l| l.name).collect::<Vec<_>>(), "operations": ops_for(&ls[1]).iter().map(|o| format!("{:?}", o)).collect::<Vec<_>>(), "histories": "run; h; run with |h|<=2 on three file layouts (all layouts thorough; 3 on two layouts thorough), |h|<=1 on the others; run; h1; run; h2; run with |h1|,|h2|<=1 everywhere"}));
@@ -903,6 +980,12 @@ pub fn check_c13_behaviour(rep: &mut Report) {
         // this oracle checks both directions: skipped => allowed, untouched => skipped
         run_histories(l, &ops, *a, *b, Oracle::RerunIffChanged, "C13")
     });
+    let mut outs = outs;
+    // a producer's outputs changing while the consumer's script runs
+    outs.extend(crate::explore::par_map(&ls, 16, |l| {
+        let ops: Vec<Op> = ops_for(l).into_iter().filter(|o| !matches!(o, Op::TouchSameContent(_) | Op::ChangeContentRestoreMtime(_) | Op::DeleteRecord | Op::TruncateRecord)).collect();
+        run_during_script(l, &ops, Oracle::RerunIffChanged, "C13")
+    }));
     merge(rep, outs);
 }
 
